@@ -125,7 +125,11 @@ CLAIMED = {
                  'started strictly in declared order, the next only after a recorded failure, none after a success; the edge from a '
                  'candidate to its one-of is not part of any reduced DAG; exhaustion yields OneOfDoesNotHaveResultError, contained when nested (C10_*). Partial: '
                  'termination, and the shapes with recurrent subgraphs, are tied and monitored, not theorems.', '§6 C10'),
-    'C11': sched('Proof (general, local to _run_recurrent_subgraph): iteration k runs only if k < max_iterations and hands the data to '
+    'C11': sched('Proof (all programs, all schedules, on the model): in every reachable state a node whose execution was ever '
+                 'invalidated (hide_last_execution) belongs to the subgraph start → dest of a RecurrentSubGraph mark, so a node '
+                 'outside every recurrent subgraph is executed at most once in a run (C11_only_subgraph_nodes_are_invalidated, '
+                 'C11_outside_nodes_run_at_most_once; invariant RX of Proofs/RecScope.lean, one lemma per handler, no hypothesis '
+                 'on the program). Proof (general, local to _run_recurrent_subgraph): iteration k runs only if k < max_iterations and hands the data to '
                  'the start node; exhaustion gives default iff opted in else the recurrent error; a Recurrent result never unlocks '
                  'consumers; re-execution needs a hide (with C04) (C11_*). Partial: consumers-see-final-only under all schedules is '
                  'tied and monitored (private subgraphs).', '§6 C11'),
